@@ -846,3 +846,22 @@ mutant("rts-new-bindings-assigned",
 mutant("rts-capture-copies-scopes",
        [(SC, "        ScopeStack(self.0.clone())\n    }\n\n    // `declare`", "        ScopeStack(self.0.iter().map(|s| Arc::new(Mutex::new(s.try_lock().unwrap().clone()))).collect())\n    }\n\n    // `declare`")],
        [("C04", "R04.1")], also=[("C04", "R04.2")], base=RTS, note="capture() + closures capture a deep copy of the scopes (capture by value)")
+
+# ---- round 8 ---------------------------------------------------------------------
+RUE = "refactors/u-errors/patch.diff"
+mutant("rue-wrapper-dropped-from-peel-helper",
+       [("src/eval/error.rs", "            Error::EvalIfConditionFailed{source} |\n", "")],
+       [("C17", "L1")], base=RUE, note="peel helper in error.rs + one context wrapper missing from its list")
+RUS = "refactors/u-stacktrace/patch.diff"
+mutant("rus-wrapper-dropped-from-transparent-list",
+       [(MAIN, "        EvalError::EvalWhileConditionFailed{source} |\n", "")],
+       [("C17", "L1")], base=RUS, note="into_transparent_source + one context wrapper missing from its list")
+RUP = "refactors/u-params/patch.diff"
+mutant("rup-index-accepted-as-parameter",
+       [(E, "            RawExpr::Index{..} =>\n                return new_invalid_param_err(loc, \"an index operation\"),", "            RawExpr::Index{..} => {},")],
+       [("C20", "R20.3")], base=RUP, note="parameter validator with helper-built errors + an index expression is accepted as a parameter")
+RUF = "refactors/u-funcvalues/patch.diff"
+mutant("ruf-anonymous-fn-captures-empty-chain",
+       [(E, "        closure: scopes.clone(),\n    })", "        closure: if name_is_none { ScopeStack::new(vec![]) } else { scopes.clone() },\n    })"),
+        (E, "    value::new_func(Func{\n        name,", "    let name_is_none = name.is_none();\n    value::new_func(Func{\n        name,")],
+       [("C04", "R04.1")], base=RUF, note="new_closure helper + anonymous functions capture an empty chain")
